@@ -60,8 +60,8 @@ class SharedEnv:
             (r'(^|::)Atomic(::<\w+>|[UI]\d+)?::load$', self.h_load),
             (r'(^|::)Atomic(::<\w+>|[UI]\d+)?::store$', self.h_store),
             (r'(^|::)Atomic(::<\w+>|[UI]\d+)?::(swap|fetch_\w+|compare_exchange\w*|compare_and_swap)$', self.h_rmw),
-            (r'(^|::)atomic::fence$', self.h_fence),
-            (r'(^|::)atomic::compiler_fence$', self.h_cfence),
+            (r'(^|::)fence$', self.h_fence),
+            (r'(^|::)compiler_fence$', self.h_cfence),
             (r'ptr::(const_ptr|mut_ptr)::<impl \*(const|mut) .+>::(read_volatile|read|read_unaligned)$', self.h_read),
             (r'(^|::)ptr::(read_volatile|read|read_unaligned)(::<.*>)?$', self.h_read),
             (r'ptr::mut_ptr::<impl \*mut .+>::(write_volatile|write|write_unaligned)$', self.h_write),
@@ -76,6 +76,12 @@ class SharedEnv:
         raise EngineError('read-modify-write atomics are outside the single-writer model: ' + callee)
 
     def h_load(self, ex, st, callee, args, fn):
+        if isinstance(args[0], Ref):
+            # an atomic that lives in private memory (e.g. the header copy read from the file): an ordinary load
+            v = ex.deref(st, args[0])
+            while isinstance(v, Struct) and len(v.f) == 1:
+                v = v.f[0]
+            return v
         p = _ptr(args[0]); size, ty = self._size_of_generic(ex, callee)
         v = self.fresh(ex, 'ld')
         lo, hi = INTTY[ty]
